@@ -2,48 +2,167 @@
 
 ENGINES = [
     {'name': 'pyvc', 'path': 'vf/pyvc',
-     'serves_properties': ['C01'],
-     'kind_free_text': 'contract-based deductive verification: sidecar contracts on the real '
-                       'functions, verification conditions generated from the AST of /repo on every '
-                       'run (forward symbolic execution, modular calls via callee contracts), '
-                       'discharged by z3 with cvc5 / z3-new as fallback; counter-models replayed on '
-                       'the real code'},
-    {'name': 'effects', 'path': 'vf/effects', 'serves_properties': [],
-     'kind_free_text': 'deductive frame (modifies) / ownership / loop-independence verification by a '
-                       'modular alias-and-write-effect analysis of the real source'},
-    {'name': 'coherence', 'path': 'vf/coherence', 'serves_properties': [],
-     'kind_free_text': 'class invariants for lazily evaluated objects: cache coherence, getter purity, '
-                       'configuration immutability, per-call reset'},
-    {'name': 'rtc', 'path': 'vf/rtc', 'serves_properties': [],
-     'kind_free_text': 'bounded stand-in: run-time contract checking of the real functions against '
-                       'independent spec oracles on stated, enumerated bounds; never counted as proved'},
+     'serves_properties': ['C01', 'C02', 'C03', 'C11', 'C12', 'C19'],
+     'kind_free_text': 'contract-based deductive verification: sidecar contracts (vf/contracts) on '
+                       'the real functions; verification conditions generated from the AST of /repo '
+                       'on every run (forward symbolic execution, path enumeration, modular calls '
+                       'through callee contracts, arrays as store/view comprehensions), discharged '
+                       'by z3 with cvc5 / z3-new as fallback; counter-models replayed on the real '
+                       'code; built-in mutants must be killed (thorough tier)'},
+    {'name': 'effects', 'path': 'vf/effects',
+     'serves_properties': ['C02', 'C06', 'C08', 'C10', 'C12', 'C16', 'C17', 'C18', 'C19', 'C20'],
+     'kind_free_text': 'deductive frame verification: modifies = {} for every public entry point, '
+                       'ownership of sliced catalogs, loop independence; modular may-alias / '
+                       'write-effect analysis of the real source with callee summaries'},
+    {'name': 'coherence', 'path': 'vf/coherence',
+     'serves_properties': ['C05', 'C07', 'C09', 'C11', 'C12', 'C13', 'C14', 'C16', 'C19', 'C20'],
+     'kind_free_text': 'class invariants for lazily evaluated objects: mutator coherence, getter '
+                       'purity with z3-checked path conditions, configuration immutability, '
+                       'per-call reset, descriptor-driven cache invalidation'},
+    {'name': 'rtc', 'path': 'vf/rtc',
+     'serves_properties': [f'C{i:02d}' for i in range(1, 21)],
+     'kind_free_text': 'bounded stand-in (never counted as proved): run-time contract checking of '
+                       'the real functions against independent spec oracles on stated, enumerated '
+                       'bounds; also the replay engine for refuted obligations'},
 ]
 
+_T = 'contract-based deductive verification'
+_B = 'bounded run-time contract checking (stand-in)'
+
 CLAIMED = {
-    'C01': dict(
-        engine='pyvc', category='proof',
-        technique='contract-based deductive verification (AST->VC, z3/cvc5)',
-        text='Proof obligations over the real BoundingBox code: minimal box of from_float under the '
-             'pixel-centre convention, overlap slices select exactly the common pixels (None iff '
-             'none), union/intersection. Discharged for all inputs by z3.',
-        note='floats as reals (A-real); compiled overlap kernels (.so) not covered by proof'),
+    'C01': dict(engine='pyvc', technique=f'{_T} (AST->VC, z3/cvc5) + {_B}',
+                text='Proved for all inputs (z3, floats as reals): BoundingBox.from_float is the '
+                     'smallest box under the pixel-centre convention, get_overlap_slices selects '
+                     'exactly the common pixels (None iff none), union/intersection/shape/extent/'
+                     'center. The overlap-area values of the compiled kernels are checked bounded '
+                     'on a boundary lattice against analytic / sub-pixel-counting oracles.',
+                note='A-real; the Cython kernels (.so) cannot be rebuilt and are covered only by '
+                     'the bounded driver; known findings F23 (1-ulp), F38, F39 (exact ellipse on '
+                     'pixel corners)'),
+    'C02': dict(engine='pyvc+effects', technique=f'{_T} (overlap slices, frames, loop '
+                                                 f'independence) + {_B}',
+                text='Proved: overlap slices are exactly the common pixels (callee contract of the '
+                     'cutout code), do_photometry / area_overlap / aperture_photometry modify no '
+                     'argument, per-position loop iterations are independent (many positions = one '
+                     'at a time). The sum semantics itself is checked bounded against a pixel-loop '
+                     'oracle.',
+                note='numpy aliasing tables; the weighted-sum postcondition is bounded, not proved'),
+    'C03': dict(engine='pyvc', technique=f'{_T} (translation lemmas over the C01 contracts) + {_B}',
+                text='Proof obligations of the bounding-box / overlap-slice contracts that carry '
+                     'the integer-translation covariance; end-to-end covariance of every listed '
+                     'API under translation and transposition is checked bounded on seeded scenes.',
+                note='relational two-run property: only the index arithmetic is proved'),
+    'C04': dict(engine='rtc', technique=f'{_B}: exhaustive small-scope enumeration vs union-find '
+                                        'oracle',
+                text='No proof obligation: correctness rests on scipy.ndimage.label / find_objects. '
+                     'Exhaustive enumeration of small images (values, ties, NaN, masks, npixels, '
+                     'connectivity) against a union-find oracle and a fresh SegmentationImage.',
+                note='bounded only; scipy label/find_objects are exercised, not assumed'),
+    'C05': dict(engine='coherence', technique=f'{_T} (cache-coherence class invariant) + {_B}',
+                text='Proved: every public SegmentationImage mutator resets (or re-seeds) all cached '
+                     'lazy attributes that read the fields it writes, with no stale read in between; '
+                     'set-theoretic effects and all attributes vs a fresh object are checked bounded '
+                     'over all histories of length <= 2 (sampled length 3).',
+                note='re-seeded caches assumed equal to their getters (bounded check); known '
+                     'finding F2 (polygons per connected region)'),
+    'C06': dict(engine='effects', technique=f'{_T} (frame of deblend_sources) + {_B} incl. '
+                                            'adversarial scheduler',
+                text='Proved: deblend_sources writes no caller-supplied object. Refinement facts and '
+                     'schedule independence (all permutations of completion order for <= 5 tasks, '
+                     'real spawn pools) are checked bounded.',
+                note='watershed / ndimage contracts not assumed; scheduling checked bounded'),
+    'C07': dict(engine='coherence', technique=f'{_T} (getter purity of SourceCatalog) + {_B}',
+                text='Proved: no SourceCatalog getter writes a field another access reads (each '
+                     'property is a function of the constructor state). The defining formulas are '
+                     'checked bounded with an exact-rational pixel-loop oracle incl. row locality.',
+                note='formulas bounded only; known finding F41 (thin-source covariance NaN)'),
+    'C08': dict(engine='effects', technique=f'{_T} (ownership of shared references) + {_B}',
+                text='Proved: every attribute __getitem__ copies to the child by reference is never '
+                     'mutated in place by a public method (SourceCatalog, ApertureStats, finder '
+                     'catalogs). Commutation cat[idx].p == cat.p[idx] is checked bounded for every '
+                     'public property x index form x evaluation order.',
+                note='init_attr tuples are literals (checked); commutation is bounded'),
+    'C09': dict(engine='coherence', technique=f'{_T} (getter purity, configuration immutability, '
+                                              f'per-call reset, descriptor invalidation) + {_B}',
+                text='Proved per class (Background2D, profiles, apertures + descriptors, '
+                     'PSFPhotometry, IterativePSFPhotometry, star finders, Ellipse, GriddedPSFModel, '
+                     'LocalBackground): getters destroy nothing a later access reads (z3 on path '
+                     'conditions), calls never rebind configuration, every field a call writes is '
+                     'written before it is read. Histories of <= 4 reads / <= 3 calls vs fresh '
+                     'objects checked bounded.',
+                note='guards other than cache/None tests are opaque atoms; known finding F22'),
+    'C10': dict(engine='effects', technique=f'{_T} (modifies = {{}} for ~800 public entry points) '
+                                            f'+ {_B} (deep snapshots)',
+                text='One frame obligation per public entry point: no in-place write reaches a '
+                     'caller-supplied object (parameters and constructor-supplied fields), callers '
+                     'checked against callee summaries. Deep-snapshot contracts confirm on real runs.',
+                note='numpy/astropy aliasing tables, declared frames and A-ext listed in the '
+                     'evidence; known finding F22 (Ellipse geometry)'),
+    'C11': dict(engine='pyvc', technique=f'{_T} (exclusion rule, threshold; getter purity) + {_B}',
+                text='Proved for all inputs: a box is excluded iff more than exclude_percentile '
+                     'percent of its pixels are masked or it is fully masked; the good-pixel '
+                     'threshold formula; Background2D getter purity. Mesh values, equivariance, '
+                     'fill and range relations are checked bounded against a per-box oracle.',
+                note='A-real; numerical relations bounded only'),
+    'C12': dict(engine='pyvc', technique=f'{_T} (_make_mask, configuration, per-call reset, '
+                                         f'frames) + {_B}',
+                text='Proved: _make_mask returns mask | non-finite (None iff nothing to mask), '
+                     'PSFPhotometry.__call__ rebinds no configuration, resets its results, modifies '
+                     'no argument. Recovery of rendered scenes, grouping ids vs brute-force single '
+                     'linkage, flags and ordering are checked bounded.',
+                note='least-squares convergence cannot be proved; bounded only'),
+    'C13': dict(engine='coherence', technique=f'{_T} (GriddedPSFModel configuration / purity) + '
+                                              f'{_B}',
+                text='Proved: GriddedPSFModel getters and calls do not rebind configuration. '
+                     'Normalisation sums, model consistency, ImagePSF knots and gridded '
+                     'interpolation are checked bounded on parameter lattices.',
+                note='integrals / sums are bounded only; known finding F24 (rotated GaussianPRF)'),
+    'C14': dict(engine='coherence', technique=f'{_T} (finder configuration immutability) + {_B}',
+                text='Proved: star-finder calls never rebind their configuration. find_peaks and the '
+                     'three finders are checked bounded against definition oracles (exhaustive '
+                     'small images, lattices, bounds placed one ulp beside reported values).',
+                note='selection logic bounded only (assumes nothing about maximum_filter)'),
+    'C15': dict(engine='rtc', technique=f'{_B}: representation matrix',
+                text='No contract within reach expresses dtype / layout independence of compiled '
+                     'numpy / scipy kernels: 32 representations x 46 entry-point configurations '
+                     'compared with the float64 reference, units on outputs, unit mixes rejected.',
+                note='bounded only'),
+    'C16': dict(engine='coherence', technique=f'{_T} (getter purity, loop independence) + {_B}',
+                text='Proved: ApertureStats getters are pure and the per-aperture cutout loop has no '
+                     'loop-carried state. Every statistic is checked bounded against pixel-loop '
+                     'oracles incl. tiny, off-image and fully masked apertures.',
+                note='statistics bounded only'),
+    'C17': dict(engine='effects', technique=f'{_T} (loop independence, frames) + {_B}',
+                text='Proved: the per-source loop of centroid_sources has no loop-carried dependence '
+                     '(each call is built from the original keywords) and no centroid function '
+                     'modifies its arguments. Exactness on symmetric / quadratic sources is checked '
+                     'bounded.',
+                note='Gaussian fits bounded only'),
+    'C18': dict(engine='effects', technique=f'{_T} (frames, loop independence) + {_B}',
+                text='Proved: make_model_image / make_residual_image modify neither the model nor '
+                     'the table and the row loop carries only the declared accumulators. Exact '
+                     'superposition, order invariance, additivity and units are checked bounded.',
+                note='model evaluation bounded only'),
+    'C19': dict(engine='pyvc', technique=f'{_T} (monotone-prefix contract, coherence, frames) + '
+                                         f'{_B}',
+                text='Proved for all profiles: calc_radius_at_ee passes exactly the maximal strictly '
+                     'increasing prefix to the interpolator; normalize / unnormalize keep caches '
+                     'coherent structurally; the mask argument is not modified. Aperture '
+                     'consistency and all <= 5-event normalisation histories are checked bounded.',
+                note='PCHIP interpolates its knots (assumed); scaled-cache values bounded'),
+    'C20': dict(engine='coherence', technique=f'{_T} (configuration immutability, frames) + {_B}',
+                text='Proved: Ellipse never rebinds its configuration and fit_image does not write '
+                     'the image; the geometry frame obligations are refuted (known finding F22). '
+                     'Recovery of rendered ellipses and to_polar scalar == array are checked '
+                     'bounded.',
+                note='iterative fitting has no inductive invariant within reach; known findings '
+                     'F22, F26, F27'),
 }
 
-CLAIMED['C10'] = dict(
-    engine='effects', category='other',
-    technique='contract-based frame verification (modifies={} for every public entry point) by a '
-              'modular alias/write-effect analysis; bounded snapshot contracts as stand-in',
-    text='One frame obligation per public entry point of photutils (~800): no in-place write '
-         'reaches a caller-supplied object (parameters and constructor-supplied fields), callers '
-         'checked against callee summaries. Level "other" because three obligations are refuted '
-         '(known finding F22, Ellipse geometry) so discharged < obligations; everything else is '
-         'discharged. Bounded deep-snapshot driver confirms on real runs.',
-    note='sound relative to the numpy/astropy aliasing tables and declared frames listed in the '
-         'evidence; external callees assumed not to mutate arguments (A-ext)')
-
-_PENDING = 'check not built yet (work in progress in this session); see DESIGN.md section 10'
-NOT_APPLICABLE = {f'C{i:02d}': _PENDING for i in range(1, 21) if f'C{i:02d}' not in CLAIMED}
+NOT_APPLICABLE = {}
 
 NOTES = ('All checks: ./check Cxx --tier quick|thorough. Exit 0 held / 1 violation / 2 undecided / '
          '3 checker crash. Proof engines read /repo sources on every run under python3-vt; the real '
-         'code (replays, bounded drivers) runs under /venv/bin/python.')
+         'code (replays, bounded drivers) runs under /venv/bin/python. The evidence level of a run '
+         'is "proof" only when every obligation is discharged; bounded driver counts are reported '
+         'separately and never counted as proved. Known findings: known_findings.json.')
